@@ -588,6 +588,12 @@ func runC15(r *Run) {
 			return false, ok && callInfo(c).Name == "BlockedAddr"
 		})
 		isBurn := isCallMatching(func(ci CallInfo) bool { return ci.Name == "BurnCoins" || ci.Name == "SendCoinsFromAccountToModule" })
+		// the mint branch too: MintCoins succeeds, the send to a blocked address then fails — and the minted coins stay
+		// in the evm module account when the failure is an inner call frame's (the flush runs on the live context)
+		isMint := isCallMatching(func(ci CallInfo) bool { return ci.Name == "MintCoins" })
+		wm := PathQuery{Fn: sb, Target: isMint, DelEdge: edgeSet(notBlocked)}.Search()
+		r.Check(wm == nil && len(notBlocked) > 0, "R12", fnID(sb)+"#mint-branch-refuses-blocked", P.Pos(fnPos(sb)), "mint reachable only where BlockedAddr(addr) is false",
+			"the EVM keeper mints into its module account before it finds out that the recipient is a blocked address: value attached to a precompile call (the precompile address is credited in the StateDB, the flush at the start of Run writes it) leaves the minted coins in the evm module account when the calling contract swallows the failed call — the supply grows by msg.value, repeatably", P.witness(wm)...)
 		w := PathQuery{Fn: sb, Target: isBurn, DelEdge: edgeSet(notBlocked)}.Search()
 		r.Check(w == nil && len(notBlocked) > 0, "R12", fnID(sb)+"#burn-branch-refuses-blocked", P.Pos(fnPos(sb)), "burn reachable only where BlockedAddr(addr) is false",
 			"the EVM keeper lowers the bank balance of any address to the StateDB's cached value, module accounts included: a stale cached balance of the bonded / not-bonded pool (or the distribution account) is written back and the difference burned — the module invariants no longer hold", P.witness(w)...)
